@@ -76,9 +76,9 @@ OuterLoop:
 					if !ok {
 						return "", errors.New("invalid value for integer format")
 					}
-					arg = []byte{byte(n)}
-					tmpMem += t.RequireBytes(1)
-					outFormat[i] = 's'
+					tmpMem += t.RequireBytes(length + 1)
+					arg = pad(string([]byte{byte(n)}), length, flags.minus)
+					setStringVerb(outFormat[start : i+1])
 					break ArgLoop
 				case 'b', 'd', 'o', 'x', 'X', 'U', 'i', 'u':
 					// integer verbs
@@ -126,8 +126,13 @@ OuterLoop:
 					if err != nil {
 						return "", err
 					}
-					tmpMem += t.RequireBytes(len(s))
-					arg = string(s)
+					// Go counts the width and precision in runes, C in bytes
+					if foundDot && prec < len(s) {
+						s = s[:prec]
+					}
+					tmpMem += t.RequireBytes(len(s) + length)
+					arg = pad(s, length, flags.minus)
+					setStringVerb(outFormat[start : i+1])
 					break ArgLoop
 				case 'q':
 					// quote, only for literals I think
